@@ -142,44 +142,39 @@ def parseReq (j : Json) : Except String OpReq := do
 
 def jB (b : Bool) : Json := Json.bool b
 
-/-- key equality of two graphs under the current derivation and the three earlier ones -/
-def eqAll (a b : PyObj) : List (String × Json) :=
-  [("cur", jB (hashMutableG .cur a = hashMutableG .cur b)),
-   ("oldF1", jB (hashMutableG .beforeF1 a = hashMutableG .beforeF1 b)),
-   ("oldA", jB (hashMutableG .beforeA a = hashMutableG .beforeA b)),
-   ("oldB", jB (hashMutableG .beforeB a = hashMutableG .beforeB b)),
-   ("oldD", jB (hashMutableG .beforeD a = hashMutableG .beforeD b))]
+def derivs : List (String × Deriv) :=
+  [("cur", .cur), ("oldF1", .beforeF1), ("oldA", .beforeA), ("oldB", .beforeB), ("oldD", .beforeD)]
+
+/-- equality of two key functions under the current derivation and the four earlier ones -/
+def eqAllK (a b : Deriv → Key) : List (String × Json) :=
+  derivs.map fun (n, d) => (n, jB (a d = b d))
 
 /-- {"a": graph, "b": graph} -> key equality under the current and the old derivations -/
 def keyEq (j : Json) : Except String Json := do
   let a ← parsePy (← fld j "a")
   let b ← parsePy (← fld j "b")
-  pure (Json.mkObj (eqAll a b))
+  pure (Json.mkObj (eqAllK (fun d => hashMutableG d a) (fun d => hashMutableG d b)))
 
 /-- {"kind": "grid"|"bc"|"bcs"|"req", "a": spec, "b": spec, "ga": graph, "gb": graph}:
-key equality of the graphs the *model* builds from the specifications (the objects the
-theorems are about), and whether those graphs have the same key as the serialised real
-objects -/
+key equality of the objects the *theorems* are about, computed by the very definitions the
+theorems use (`hashMutableG d (gridGraph g)`, `hashMutableG d (bcGraph b)`,
+`hashMutableG d (bcsGraph b)`, `opReqKeyG d r`), and whether these keys coincide with the key of
+the serialised real objects -/
 def specEq (j : Json) : Except String Json := do
   let kind ← fldS j "kind"
-  let build : Json → Except String PyObj := fun s => do
+  let build : Json → Except String (Deriv → Key) := fun s => do
     match kind with
-    | "grid" => pure (gridGraph (← parseGrid s))
-    | "bc" => pure (bcGraph (← parseBC s))
-    | "bcs" => pure (bcsGraph (← parseBcs s))
-    | "req" => do
-      let r ← parseReq s
-      pure (.tuple [.tuple (opReqArgs r), .dict (opReqKwargs r)])
+    | "grid" => do let g ← parseGrid s; pure (fun d => hashMutableG d (gridGraph g))
+    | "bc" => do let b ← parseBC s; pure (fun d => hashMutableG d (bcGraph b))
+    | "bcs" => do let b ← parseBcs s; pure (fun d => hashMutableG d (bcsGraph b))
+    | "req" => do let r ← parseReq s; pure (fun d => opReqKeyG d r)
     | _ => throw s!"unknown kind {kind}"
   let a ← build (← fld j "a")
   let b ← build (← fld j "b")
   let ga ← parsePy (← fld j "ga")
   let gb ← parsePy (← fld j "gb")
-  let same (x y : PyObj) : Bool :=
-    hashMutableG .cur x = hashMutableG .cur y ∧ hashMutableG .beforeF1 x = hashMutableG .beforeF1 y ∧
-    hashMutableG .beforeA x = hashMutableG .beforeA y ∧ hashMutableG .beforeB x = hashMutableG .beforeB y ∧
-    hashMutableG .beforeD x = hashMutableG .beforeD y
-  pure (Json.mkObj (eqAll a b ++ [("match_a", jB (same a ga)), ("match_b", jB (same b gb))]))
+  let same (x : Deriv → Key) (y : PyObj) : Bool := derivs.all fun (_, d) => x d = hashMutableG d y
+  pure (Json.mkObj (eqAllK a b ++ [("match_a", jB (same a ga)), ("match_b", jB (same b gb))]))
 
 /-- {"nums": [[m, e], ...]} -> CPython hash values of the numbers m*2^e -/
 def numHash (j : Json) : Except String Json := do
@@ -229,11 +224,13 @@ def replayCache (j : Json) : Except String Json := do
   pure (toJson out)
 
 /-- replay of a heap history of one field.
-{"inval": bool, "check": bool, "init": q, "events": [["write", q] | ["relink"] | ["assign_new", q] |
- ["assign_same"] | ["interp", kwargs] | ["rate"]]} -> values read (exact rationals as text) + reference values -/
+{"inval": bool, "check": bool, "content": bool (optional, default false), "init": q, "events": [["write", q] |
+ ["relink"] | ["assign_new", q] | ["assign_same"] | ["interp", kwargs] | ["rate"] | ["rate_jit"]]}
+ -> values read (as text) under the given repairs + reference values (`href`) -/
 def replayHeap (j : Json) : Except String Json := do
   let inval ← fldB j "inval"
   let check ← fldB j "check"
+  let content := optB j "content"
   let init ← fldS j "init"
   let evs ← (← fld j "events").getArr?
   let mut parsed : List (HEv Key String) := []
@@ -245,11 +242,12 @@ def replayHeap (j : Json) : Except String Json := do
     | [Json.str "assign_new", v] => parsed := parsed ++ [HEv.assignNew (← v.getStr?)]
     | [Json.str "assign_same"] => parsed := parsed ++ [HEv.assignSame]
     | [Json.str "rate"] => parsed := parsed ++ [HEv.rate]
+    | [Json.str "rate_jit"] => parsed := parsed ++ [HEv.rateJit]
     | [Json.str "interp", kw] =>
       parsed := parsed ++ [HEv.interp (cacheKey [] [] [] (← parseKw kw))]
     | _ => throw s!"bad heap event {e.compress}"
-  let got := hrun ⟨inval, check⟩ (newField (κ := Key) init) parsed
-  let ref := href init parsed
+  let got := hrun ⟨inval, check, content⟩ (newField (κ := Key) init) parsed
+  let ref := href (κ := Key) init parsed
   pure (Json.mkObj [("read", toJson got), ("ref", toJson ref)])
 
 def handlers : List (String × Handler) :=
